@@ -89,6 +89,7 @@ func rootNames(fd *ast.FuncDecl) map[string]bool {
 type tok struct {
 	roots map[string]bool
 	where string
+	full  bool // render call arguments and keep the receiver (used where WHAT is passed matters: refCountDone.OnDone)
 }
 
 // compact rendering of an expression
@@ -99,11 +100,18 @@ func (t *tok) expr(e ast.Expr) string {
 	case *ast.BasicLit:
 		return x.Value
 	case *ast.SelectorExpr:
-		if id, ok := x.X.(*ast.Ident); ok && t.roots[id.Name] {
+		if id, ok := x.X.(*ast.Ident); ok && t.roots[id.Name] && !t.full {
 			return x.Sel.Name
 		}
 		return t.expr(x.X) + "." + x.Sel.Name
 	case *ast.CallExpr:
+		if t.full {
+			as := make([]string, len(x.Args))
+			for i, a := range x.Args {
+				as[i] = t.expr(a)
+			}
+			return t.expr(x.Fun) + "(" + strings.Join(as, ",") + ")"
+		}
 		return t.expr(x.Fun) + "()"
 	case *ast.ParenExpr:
 		return "(" + t.expr(x.X) + ")"
@@ -196,6 +204,8 @@ func (t *tok) tokens(n ast.Node, keep func(string) bool) []string {
 		case *ast.CallExpr:
 			if id, ok := x.Fun.(*ast.Ident); ok && id.Name == "close" && len(x.Args) == 1 {
 				add("close:" + t.expr(x.Args[0]))
+			} else if t.full {
+				add(t.expr(x))
 			} else {
 				add(t.expr(x.Fun))
 			}
@@ -251,7 +261,7 @@ func main() {
 	var items []item
 	emit := func(name, doc string, f *ast.File, recv, fn string, keep func(string) bool) {
 		fd := findFunc(f, recv, fn)
-		t := &tok{roots: rootNames(fd), where: recv + "." + fn}
+		t := &tok{roots: rootNames(fd), where: recv + "." + fn, full: recv == "refCountDone" || recv == "multiDone"}
 		if fn == "NewBaseExporter" {
 			t.roots["be"] = true // the object under construction
 		}
